@@ -2,8 +2,8 @@
 # tools/seedverify.sh <seed dir>... : independent confirmation of a seeded change in a scratch worktree:
 #  (1) demo passes on the pristine tree, (2) patched tree builds, (3) testbee2 still 38 OK, (4) demo fails.
 # Result in <seed dir>/verify.txt.  Never touches /repo's working tree.
-for D in "$@"; do
-  WT=/tmp/seedverify_$$; rm -rf "$WT"
+for D0 in "$@"; do D=$(cd "$D0" && pwd)
+  WT=/tmp/seedverify_$$_$(basename "$D"); rm -rf "$WT"
   git -C /repo worktree add -q "$WT" HEAD || continue
   R="$D/verify.txt"; : > "$R"
   EXTRA=$(grep -o '\-Wl,--wrap=[a-z,=-]*' "$D/meta.json" | head -1)
